@@ -114,6 +114,14 @@ SvcPorts(e) == WS(e) => /\ (IF Provider(e) THEN "webhook:9443>webhook" ELSE "grp
                         /\ (~Provider(e) => W(e).cip = "None")
 SvcName(e) == WS(e) => W(e).n = "pkg"
 SaPullSecrets(e) == (Wrote(e) /\ e.tk = "sa") => "xp-pull" \in Range(W(e).ips)
+\* "applySA ... includes any image pull secrets that have been added by external controllers": when its read of the
+\* existing ServiceAccount succeeded, a patch keeps every pull secret that was there.  (When that read fails the code
+\* carries on without them: counted by the driver as an observation, not judged.)
+SaKeepsPullSecrets(e) ==
+  (Wrote(e) /\ e.tk = "sa" /\ e.verb = "patch" /\ e.seen.saFirst = "ok") => Range(e.pre.ips) \subseteq Range(W(e).ips)
+\* a provider revision's status carries the permission requests of its package metadata once Pre ran
+PermissionRequests(e) ==
+  (e.ev = "end" /\ e.result = "ok" /\ Provider(e) /\ e.seen.des = "Active") => RevRec(e, e.actor).perms = 1
 
 \* ---- I8: what fault-free reconciles settle into
 Target(e, r) == DepAlias(r, e.post.drc.dn)
@@ -171,6 +179,8 @@ Check(i) ==
   /\ (SvcPorts(e) \/ Viol("Service.Ports", i))
   /\ (SvcName(e) \/ Viol("Service.Name", i))
   /\ (SaPullSecrets(e) \/ Viol("ServiceAccount.PullSecrets", i))
+  /\ (SaKeepsPullSecrets(e) \/ Viol("ServiceAccount.KeepsPullSecrets", i))
+  /\ (PermissionRequests(e) \/ Viol("PermissionRequests", i))
   /\ (SConverges(e) \/ Viol("Settled.Converges", i))
   /\ (SAtMostOne(e) \/ Viol("Settled.AtMostOne", i))
   /\ (SNoLeftover(e) \/ Viol("Settled.Leftover", i))
